@@ -104,8 +104,12 @@ def fresh_state():
         c15.reset()
 
 
+KEEP_STATE = [False]
+
+
 def _bind(native, traced_printers):
-    fresh_state()
+    if not KEEP_STATE[0]:
+        fresh_state()
     if native or traced_printers:
         PP.pretty_python_value = _orig_ppv
         PP.PrettyContext = _orig_ctx
